@@ -95,9 +95,28 @@ def hostile_pool(ex_attrs):
 # -- the renaming engine ---------------------------------------------------------------
 
 def rename_python(src, mapping):
-    def sub(m):
-        return mapping.get(m.group(0), m.group(0))
-    return re.sub(r'\b[A-Za-z_][A-Za-z_0-9]*\b', sub, src)
+    """Rename identifiers in inline Python source (NAME tokens only: string literals and
+    attribute names after a dot are left alone)."""
+    import io
+    import tokenize
+    try:
+        toks = list(tokenize.generate_tokens(io.StringIO(src).readline))
+    except (tokenize.TokenError, SyntaxError, IndentationError):
+        def sub(m):
+            return mapping.get(m.group(0), m.group(0))
+        return re.sub(r'\b[A-Za-z_][A-Za-z_0-9]*\b', sub, src)
+    lines = src.split('\n')
+    edits = []
+    prev = None
+    for t in toks:
+        if t.type == tokenize.NAME and t.string in mapping and not (prev is not None and prev.string == '.'):
+            edits.append((t.start[0] - 1, t.start[1], t.end[1], mapping[t.string]))
+        if t.type not in (tokenize.NL, tokenize.NEWLINE, tokenize.INDENT, tokenize.DEDENT, tokenize.COMMENT):
+            prev = t
+    for row, a, b, new in sorted(edits, reverse=True):
+        if row < len(lines):
+            lines[row] = lines[row][:a] + new + lines[row][b:]
+    return '\n'.join(lines)
 
 
 def rename_expr(e, mp):
